@@ -65,6 +65,7 @@ pub fn render_ty_in(p: &GProg, t: &Ty, layout: Option<&Layout>, cur: usize, used
             }
         }
         Ty::Param(i) => TPARAM_NAMES[*i as usize % 4].into(),
+        Ty::Dyn(t) => format!("dyn {}", p.traits[*t].name),
     }
 }
 
@@ -101,7 +102,10 @@ const P_POSTFIX: u8 = 8;
 fn contains_struct_lit(e: &Expr) -> bool {
     match e {
         Expr::StructLit(..) => true,
-        Expr::Un(_, a) | Expr::Proj(a, _) | Expr::Field(a, _, _) => contains_struct_lit(a),
+        Expr::Un(_, a) | Expr::Proj(a, _) | Expr::Field(a, _, _) | Expr::Coerce(_, a) => contains_struct_lit(a),
+        Expr::Call(Callee::Method(_, MForm::Dot), args) | Expr::Call(Callee::Dispatch(_, _, MForm::Dot), args) => {
+            args.first().map_or(false, contains_struct_lit)
+        }
         Expr::Bin(_, a, b) => contains_struct_lit(a) || contains_struct_lit(b),
         // anything bracketed by ( ) [ ] or braces is safe
         _ => false,
@@ -212,8 +216,38 @@ impl<'a> Renderer<'a> {
                 }
             }
         }
+        let main_pkg = self.layout.map_or(true, |l| self.cur == l.pkgs.len() - 1);
+        if main_pkg {
+            // traits and impls stay in the entry package
+            for t in &self.p.traits {
+                self.out.push_str(&format!("trait {} {{", t.name));
+                for m in &t.methods {
+                    let mut ps = vec!["Self".to_string()];
+                    for pt in &m.params {
+                        ps.push(self.ty(pt));
+                    }
+                    let rt = self.ty(&m.ret);
+                    self.out.push_str(&format!("\n    fn {}({}) -> {};", m.name, ps.join(", "), rt));
+                }
+                self.out.push_str("\n}\n\n");
+            }
+            for im in &self.p.impls {
+                let tt = self.ty(&im.for_ty);
+                match im.trait_ {
+                    Some(t) => self.out.push_str(&format!("impl {} for {} {{", self.p.traits[t].name, tt)),
+                    None => self.out.push_str(&format!("impl {} {{", tt)),
+                }
+                self.indent += 1;
+                for f in &im.methods {
+                    self.nl();
+                    self.func(&self.p.fns[*f]);
+                }
+                self.indent -= 1;
+                self.out.push_str("}\n\n");
+            }
+        }
         for (fi, f) in self.p.fns.iter().enumerate() {
-            if self.layout.map_or(false, |l| l.fn_pkg[fi] != self.cur) {
+            if f.owner.is_some() || self.layout.map_or(false, |l| l.fn_pkg[fi] != self.cur) {
                 continue;
             }
             self.func(f);
@@ -225,7 +259,20 @@ impl<'a> Renderer<'a> {
         let tps = if f.tparams > 0 {
             format!(
                 "[{}]",
-                (0..f.tparams).map(|i| TPARAM_NAMES[i as usize % 4]).collect::<Vec<_>>().join(", ")
+                (0..f.tparams)
+                    .map(|i| {
+                        let n = TPARAM_NAMES[i as usize % 4];
+                        match f.bounds.get(i as usize) {
+                            Some(b) if !b.is_empty() => format!(
+                                "{}: {}",
+                                n,
+                                b.iter().map(|t| self.p.traits[*t].name.clone()).collect::<Vec<_>>().join(" + ")
+                            ),
+                            _ => n.to_string(),
+                        }
+                    })
+                    .collect::<Vec<_>>()
+                    .join(", ")
             )
         } else {
             String::new()
@@ -378,6 +425,32 @@ impl<'a> Renderer<'a> {
         self.out.push(')');
     }
 
+    fn method_call(&mut self, name: &str, form: MForm, tr: Option<usize>, for_ty: Option<&Ty>, args: &[Expr]) {
+        match form {
+            MForm::Dot => {
+                // `S { .. }.m()` is fine; an operator expression needs parentheses
+                self.expr(&args[0], P_POSTFIX);
+                self.out.push('.');
+                self.out.push_str(name);
+                self.args(&args[1..]);
+            }
+            MForm::TypeUfcs => {
+                let head = match for_ty {
+                    Some(Ty::Adt(a, _)) => self.adt_name(*a),
+                    Some(t) => self.ty(t),
+                    None => String::new(),
+                };
+                self.out.push_str(&format!("{}::{}", head, name));
+                self.args(args);
+            }
+            MForm::TraitUfcs => {
+                let head = self.p.traits[tr.unwrap_or(0)].name.clone();
+                self.out.push_str(&format!("{}::{}", head, name));
+                self.args(args);
+            }
+        }
+    }
+
     fn head(&mut self, e: &Expr) {
         if contains_struct_lit(e) {
             self.out.push('(');
@@ -510,8 +583,19 @@ impl<'a> Renderer<'a> {
                     self.args(args);
                 }
             }
+            Expr::Call(Callee::Method(f, form), args) => {
+                let def = &self.p.fns[*f];
+                let im = &self.p.impls[def.owner.unwrap_or(0)];
+                self.method_call(&def.name, *form, im.trait_, Some(&im.for_ty), args);
+            }
+            Expr::Call(Callee::Dispatch(t, m, form), args) => {
+                let name = self.p.traits[*t].methods[*m].name.clone();
+                self.method_call(&name, *form, Some(*t), None, args);
+            }
+            Expr::Coerce(_, inner) => self.expr(inner, ctx),
             Expr::Call(c, args) => {
                 match c {
+                    Callee::Method(..) | Callee::Dispatch(..) => {}
                     Callee::Fn(f, _) => {
                         let n = self.fn_name(*f);
                         self.out.push_str(&n)
